@@ -82,7 +82,8 @@ func genFaultsW(r *rand.Rand, i int) Scenario {
 		}
 	}
 	sc.Batches = []Batch{b1, b2}
-	mode := []uint32{0, 0, 2, 1024}[r.Intn(4)]
+	_ = r.Intn(4)
+	mode := []uint32{0, 2, 0, 1024}[i%4] // 0: the public Merge(...).WriteTo (its own Merger object, used twice by the retry mode)
 	sc.Ops = append(sc.Ops,
 		Op{Op: "build", Seg: 1, Batch: 0, Mode: pickMode(r)}, Op{Op: "build", Seg: 2, Batch: 1, Mode: pickMode(r)},
 		// the fault-free run, validated against Level A like any merge
@@ -427,7 +428,13 @@ func genConcSched(r *rand.Rand, i int) Scenario {
 		sc.Batches = append(sc.Batches, Batch{Doc{{Name: "_id", Len: 1, Stored: true, Value: B([]byte("x9")), Terms: []TermOcc{{Term: B([]byte("x9")), Freq: 1, Locs: []Loc{}}}},
 			{Name: mid, Len: 1, Stored: true, Value: B([]byte("mv")), Terms: []TermOcc{{Term: B([]byte("mt")), Freq: 1, Locs: []Loc{}}}}}})
 		sc.Ops = append(sc.Ops, Op{Op: "build", Seg: 9, Batch: 1, Mode: 0})
-		groups = [][]Op{{{Op: "merge", File: 30, In: []int{seg, 9}, Drops: []DropSpec{randDrops(r, len(b1)), {Kind: "nil"}}, Mode: 0, Buf: 64}}, holder,
+		mergeOp := Op{Op: "merge", File: 30, In: []int{seg, 9}, Drops: []DropSpec{randDrops(r, len(b1)), {Kind: "nil"}}, Mode: 0, Buf: 64}
+		if i%6 == 2 {
+			// equal field lists and nothing deleted in the segment being read: the merger copies its stored blocks
+			// while readers visit other blocks of it
+			mergeOp = Op{Op: "merge", File: 30, In: []int{seg, 1}, Drops: []DropSpec{{Kind: "nil"}, randDrops(r, len(b1))}, Mode: 0, Buf: 1}
+		}
+		groups = [][]Op{{mergeOp}, holder,
 			{{Op: "fields", Seg: seg}, {Op: "stored", Seg: seg, N: 0}, {Op: "fields", Seg: seg}, {Op: "stored", Seg: seg, N: len(b1) - 1}}}
 		after = append(after, Op{Op: "fields", Seg: seg}, Op{Op: "stored", Seg: seg, N: 0}, Op{Op: "observe", Seg: seg, Level: "light"},
 			Op{Op: "load", File: 30, Seg: 31, Backing: "mem"}, Op{Op: "observe", Seg: 31, Level: "light"})
@@ -444,6 +451,18 @@ func genConcSched(r *rand.Rand, i int) Scenario {
 	// nested visits without any concurrency
 	for k := 0; k < 3; k++ {
 		sc.Ops = append(sc.Ops, Op{Op: "stored", Seg: seg, N: pick(), Nested: &Op{Op: "stored", Seg: seg, N: pick()}})
+	}
+	// reads of the segment issued from inside the destination a merge writes to (a small merge buffer: the writes
+	// happen while the merger is in the middle of a stored block it copies - equal field lists, nothing deleted)
+	if n > 128 {
+		for k, d := range []int{0, n - 1} {
+			sc.Ops = append(sc.Ops, Op{Op: "merge", File: 60 + k, In: []int{seg, seg}, Drops: []DropSpec{{Kind: "nil"}, {Kind: "nil"}}, Mode: 0, Buf: []int{1, 64}[k],
+				Nested: &Op{Op: "stored", Seg: seg, N: d}},
+				Op{Op: "load", File: 60 + k, Seg: 60 + k, Backing: "mem"})
+			for _, x := range []int{0, 1, 127, 128, 129, n - 1, n, n + 127, n + 128, n + 129, 2*n - 1} {
+				sc.Ops = append(sc.Ops, Op{Op: "stored", Seg: 60 + k, N: x})
+			}
+		}
 	}
 	// reads of the segment issued from inside doc-value callbacks - of the first visits of fresh readers on a
 	// fresh segment object (no dictionary cached yet): a dictionary, another reader's first visit, stored fields
@@ -601,6 +620,18 @@ func genFaultThenMerge(r *rand.Rand, i int) Scenario {
 			Op{Op: "observe", Seg: 1 + k%2, Level: "light"},
 			Op{Op: "merge", File: 10 + k, In: []int{1, 2}, Drops: []DropSpec{d1, d2}, Mode: 0, Buf: 64},
 			Op{Op: "load", File: 10 + k, Seg: 10 + k, Backing: "mem"}, Op{Op: "observe", Seg: 10 + k, Level: "light"})
+		// the statistics of a merge that follows an abandoned one (scratch state the abandoned merge handed back)
+		for _, f := range sc.Universe {
+			sc.Ops = append(sc.Ops, Op{Op: "stats", Seg: 10 + k, Field: f})
+		}
+		if k == 1 {
+			// a much smaller merge right after an abandoned bigger one
+			sc.Ops = append(sc.Ops, Op{Op: "merge_fail", In: []int{1, 2}, Drops: []DropSpec{{Kind: "nil"}, {Kind: "nil"}}, Mode: 0, Buf: 1, N: offs[5+k%5]},
+				Op{Op: "merge", File: 30, In: []int{2}, Drops: []DropSpec{d2}, Mode: 0, Buf: 64}, Op{Op: "load", File: 30, Seg: 30, Backing: "mem"})
+			for _, f := range sc.Universe {
+				sc.Ops = append(sc.Ops, Op{Op: "stats", Seg: 30, Field: f})
+			}
+		}
 	}
 	sc.Ops = append(sc.Ops, Op{Op: "digest"}, Op{Op: "observe", Seg: 14, Level: "full"})
 	return sc
@@ -1164,10 +1195,17 @@ func genBlockDrop(r *rand.Rand, i int) Scenario {
 	}
 	sc.Ops = append(sc.Ops,
 		Op{Op: "merge", File: 10, In: in, Drops: drops, Mode: 0, Buf: 4096}, Op{Op: "load", File: 10, Seg: 10, Backing: "mem"},
-		Op{Op: "merge", File: 54, In: in, Drops: nodrop, Mode: 0, Buf: 4096}, Op{Op: "load", File: 54, Seg: 54, Backing: "mem"},
+		// (its destination reads a document of the first block of the big input on every write it receives: the merger
+		// is then in the middle of copying a later block of that input)
+		Op{Op: "merge", File: 54, In: in, Drops: nodrop, Mode: 0, Buf: 64, Nested: &Op{Op: "stored", Seg: in[1], N: 1 + i%100}}, Op{Op: "load", File: 54, Seg: 54, Backing: "mem"},
 		Op{Op: "merge_translated", File: 55, In: []int{54}, Drops: []DropSpec{{Kind: "translate", Bm: 54}}, Mode: 0, Buf: 64, Nested: &Op{Drops: drops}},
 		Op{Op: "load", File: 55, Seg: 55, Backing: "mem"})
 	total := n0 + n1 - len(d1)
+	for d := 0; d < n0+n1; d++ {
+		if d%128 >= 120 || d%128 <= 8 || d%16 == 0 {
+			sc.Ops = append(sc.Ops, Op{Op: "stored", Seg: 54, N: d})
+		}
+	}
 	for _, seg := range []int{10, 55} {
 		for d := 0; d < total+1; d++ {
 			if d < 2 || d > total-3 || (d%128 >= 124 || d%128 <= 5) {
